@@ -4,10 +4,15 @@ import AriVerif.Framing
 import AriVerif.Proto
 /-
   Conc/MetaSrv.lean — the whole Metadata server as the co-simulation sees it: start-up, reader (framing +
-  Dispatch), the worker pool (Conc/Pool), send queue and writer.  Executable only.
+  Dispatch), the worker pool (Conc/Pool), send queue and writer, and `Server.close()` run by the reader on an
+  honoured close request (stop pill, join of the writer, pool shutdown, socket close).  Theorems:
+  Conc/MetaProj.lean, Conc/SrvGate.lean, Conc/MetaClose.lean.
 -/
 namespace Ari.Conc
 open Ari
+
+/-- `_Sender._STOP_WAITING_PILL`: the sentinel `_Sender.quit()` puts into the send queue. -/
+def stopPill : String := "STOP_WAITING_PILL"
 
 structure MState where
   cfg : SrvCfg
@@ -18,12 +23,18 @@ structure MState where
       about to enqueue) -/
   rq : List RAct := []
   rst : RState
-  sendQ : List String := []
+  /-- the send queue; `none` is the stop pill of `_Sender.quit()` -/
+  sendQ : List (Option String) := []
   rthr : Nat := 0
   wthr : Nat := 0
   mpc : Nat := 0
   wsend : Option String := none
   written : List String := []
+  /-- progress of `Server.close()` on the reader thread: 0 = not called; 1 = stop flag set and stop pill enqueued, the
+      reader is joining the writer; 2 = writer joined, the reader waits in `executor.shutdown()`; 3 = pool shut down,
+      socket closed -/
+  cpc : Nat := 0
+  sockClosed : Bool := false
 
 inductive MEff
   | enqueue (line : String)
@@ -32,6 +43,8 @@ inductive MEff
   | adapterEnd (c : String)
   | handlerExc
   | sent (bytes : String)
+  | enqueuePill
+  | sockClose
 deriving Repr
 
 /-- perform the reader's local actions up to (not including) the next enqueue. -/
@@ -48,13 +61,15 @@ def runLocal (s : MState) : List RAct → MState × List MEff
       | none => runLocal s rest
     | _ => runLocal s rest
   | .handlerExc :: rest => let (s', e) := runLocal s rest; (s', .handlerExc :: e)   -- Dispatch.onException already consults the configuration
+  | .quit :: rest => ({ s with rq := .quit :: rest }, [])                 -- `quit()`: about to enqueue the stop pill
+  | .poolShutdown :: rest => ({ s with rq := .poolShutdown :: rest }, []) -- waits (writer join, then pool)
   | _ :: rest => runLocal s rest
 
 def liftPool (s : MState) (r : Option (PState × List PEff)) : Option (MState × List MEff) :=
   r.map fun (p, effs) =>
     let (s1, me) := effs.foldl (fun (acc : MState × List MEff) e =>
       match e with
-      | .enqueue l => ({ acc.1 with sendQ := acc.1.sendQ ++ [l] }, acc.2 ++ [.enqueue l])
+      | .enqueue l => ({ acc.1 with sendQ := acc.1.sendQ ++ [some l] }, acc.2 ++ [.enqueue l])
       | .adapterBegin c => (acc.1, acc.2 ++ [.adapterBegin (Proto.showCall c)])
       | .adapterEnd c => (acc.1, acc.2 ++ [.adapterEnd c.name])
       | .handlerExc => (acc.1, if s.cfg.excHandler.isSome then acc.2 ++ [.handlerExc] else acc.2)) ({ s with pool := p }, [])
@@ -63,6 +78,8 @@ def liftPool (s : MState) (r : Option (PState × List PEff)) : Option (MState ×
 inductive MOp
   | threadStart | deliver (c : String) | recv | put | get | send | taskStart | adapterBegin
   | adapterEnd (o : Outcome)
+  | join          -- the reader's `join()` of the writer thread returns
+  | poolWait      -- the reader's `executor.shutdown()` returns
 
 def mstep (s : MState) (env : InitEnv) (tid : String) (op : MOp) : Option (MState × List MEff) :=
   if tid = "P" then
@@ -74,11 +91,11 @@ def mstep (s : MState) (env : InitEnv) (tid : String) (op : MOp) : Option (MStat
     | .threadStart, 0 => some ({ s with mpc := 1, wthr := 1 }, [])
     | .put, 1 =>
       let l := "1|" ++ writeCredentials none none
-      some ({ s with sendQ := s.sendQ ++ [l], mpc := 2, rthr := 1 }, [.enqueue l])
+      some ({ s with sendQ := s.sendQ ++ [some l], mpc := 2, rthr := 1 }, [.enqueue l])
     | _, _ => none
   else if tid = "R" then
     if s.rthr = 1 then (match op with | .threadStart => some ({ s with rthr := 2 }, []) | _ => none) else
-    if s.rthr = 0 then none else
+    if s.rthr = 0 ∨ s.rthr = 3 then none else
     match op, s.rq with
     | .recv, [] =>
       match s.inbound with
@@ -88,16 +105,29 @@ def mstep (s : MState) (env : InitEnv) (tid : String) (op : MOp) : Option (MStat
         let (st, acts) := dispatchAll s.cfg env s.rst lines
         some (runLocal { s with inbound := rest, rbuf := b, rst := st } acts.flatten)
     | .put, .reply l :: rest =>
-      let (s', e) := runLocal { s with sendQ := s.sendQ ++ [l] } rest
+      let (s', e) := runLocal { s with sendQ := s.sendQ ++ [some l] } rest
       some (s', .enqueue l :: e)
+    | .put, .quit :: rest =>
+      -- `_RequestManager.quit()`: stop flag, stop pill behind everything already queued; then `join()`
+      some ({ s with sendQ := s.sendQ ++ [none], rq := rest, cpc := 1 }, [.enqueuePill])
+    | .join, .poolShutdown :: _ =>
+      if s.cpc = 1 ∧ s.wthr = 3 then some ({ s with cpc := 2 }, []) else none
+    | .poolWait, .poolShutdown :: .sockClose :: _ =>
+      -- `executor.shutdown()` returns when no task is queued or running; then the socket is closed and the reader, its stop
+      -- flag set, leaves its loop (whatever followed an honoured close request in the same read is not modelled: the
+      -- protocol sends nothing after it)
+      if s.cpc = 2 ∧ s.pool.running = 0 ∧ s.pool.workQ = [] then
+        some ({ s with cpc := 3, sockClosed := true, rq := [], rthr := 3 }, [.sockClose])
+      else none
     | _, _ => none
   else if tid = "W" then
     if s.wthr = 1 then (match op with | .threadStart => some ({ s with wthr := 2 }, []) | _ => none) else
-    if s.wthr = 0 then none else
+    if s.wthr = 0 ∨ s.wthr = 3 then none else
     match op, s.wsend with
     | .get, none =>
       match s.sendQ with
-      | m :: rest => some ({ s with sendQ := rest, wsend := some m }, [])
+      | some m :: rest => some ({ s with sendQ := rest, wsend := some m }, [])
+      | none :: rest => some ({ s with sendQ := rest, wthr := 3 }, [])           -- the stop pill: the writer leaves its loop
       | [] => none
     | .send, some m => some ({ s with wsend := none, written := s.written ++ [m] }, [.sent (m ++ "\r\n")])
     | _, _ => none
@@ -115,8 +145,12 @@ def mstep (s : MState) (env : InitEnv) (tid : String) (op : MOp) : Option (MStat
   else none
 
 def menabled (s : MState) : List String :=
-  let r := if s.rthr = 1 ∨ (s.rthr = 2 ∧ (!s.rq.isEmpty ∨ !s.inbound.isEmpty)) then ["R"] else []
-  let w := if s.wthr = 0 then [] else if s.wthr = 1 then ["W"] else
+  let rgo : Bool := match s.rq with
+    | [] => !s.inbound.isEmpty
+    | .poolShutdown :: _ => (s.cpc = 1 ∧ s.wthr = 3) ∨ (s.cpc = 2 ∧ s.pool.running = 0 ∧ s.pool.workQ = [])
+    | _ => true
+  let r := if s.rthr = 1 ∨ (s.rthr = 2 ∧ rgo) then ["R"] else []
+  let w := if s.wthr = 0 ∨ s.wthr = 3 then [] else if s.wthr = 1 then ["W"] else
     match s.wsend with
     | some _ => ["W"]
     | none => if s.sendQ.isEmpty then [] else ["W"]
@@ -133,6 +167,7 @@ def menabled (s : MState) : List String :=
 def msnap (s : MState) : String :=
   "pool:q=" ++ ",".intercalate (s.pool.workQ.map fun k => "T" ++ toString (k + 1)) ++ ";run=" ++ toString s.pool.running ++
     "|sendq=" ++ toString s.sendQ.length ++ "|init=" ++ (if s.rst.initExpected then "t" else "f") ++
-    "|done=" ++ toString (s.pool.tasks.filter fun t => match t.pc with | .done => true | _ => false).length
+    "|done=" ++ toString (s.pool.tasks.filter fun t => match t.pc with | .done => true | _ => false).length ++
+    "|sock=" ++ (if s.sockClosed then "closed" else "open")
 
 end Ari.Conc
